@@ -346,6 +346,11 @@ public:
 		return *this;
 	}
 
+	Socket& operator<<(char* x) // a non-const pointer or char buffer is a C string too (not a value for the generic operator)
+	{
+		return *this << (const char*)x;
+	}
+
 	Socket& operator<<(const String& x)
 	{
 		write(*x, x.length());
